@@ -253,7 +253,7 @@ func Counting(p *core.Prog, r *core.Report) {
 						}
 					}
 				}
-				if pth, has := core.StablePath(cd.Value); has && strings.HasSuffix(pth, "recycleValidators") {
+				if pth, has := core.StablePath(cd.Value); has && strings.HasSuffix(pth, recycleSuffix) {
 					continue
 				}
 				n = -100
